@@ -38,9 +38,91 @@ def r154(ctx, fx):
         ctx.finding(rid, k, "the edits are not built from params.new_name", f.where)
 
 
+def r155(ctx, fx):
+    rid = ctx.rule("R15.5", "the ranges of a workspace edit are the usage spans, in the coordinates of the *original* document: outside the span converters nothing in "
+                   "the language server stores into a field of an lsp_types Position / Range (no `edit.range.start.character = …`), and no Position is built "
+                   "from arithmetic on another position — edits shifted by the lengths of earlier replacements overwrite the wrong characters when one line "
+                   "holds two occurrences")
+    n = 0
+    seen = {}
+    for f in sorted(fx.all_fns("mos"), key=lambda f: f.path):
+        if "::tests::" in f.path or "::testing" in f.path or not f.path.lstrip("<").startswith("mos::lsp") or not f.blocks:
+            continue
+        n += 1
+        hits = []
+        for bi, si, st in lib.stmts(f):
+            if st["k"] != "assign":
+                continue
+            proj = st["dst"].get("p") or []
+            named = [e for e in proj if isinstance(e, dict) and "n" in e]
+            if named and str(named[-1].get("of", "")) in ("lsp_types::Position", "lsp_types::Range") and len(proj) >= 1 and \
+                    (len(named) >= 2 or any(e == "deref" or (isinstance(e, dict) and "n" not in e) for e in proj) or st["dst"]["l"] <= f.argc):
+                # a store *through* an existing value (field of a field, through a reference, or of a parameter); building a fresh local
+                # field by field (`_5.line = …` of an uninitialised temporary) is how MIR constructs aggregates in some cases and is excluded
+                hits.append((named[-1]["of"].rsplit("::", 1)[1], named[-1]["n"], st.get("line")))
+        if not hits:
+            ctx.inst(rid, f.path, nontrivial=False)
+        for adt, fld, line in hits:
+            owner = f
+            while owner.kind == "closure" and owner.d.get("parent") in fx.fns:
+                owner = fx.fns[owner.d["parent"]]
+            seen[owner.path] = seen.get(owner.path, 0) + 1
+            key = "%s|%s.%s#%d" % (owner.path, adt, fld, seen[owner.path])
+            ctx.inst(rid, key)
+            ctx.finding(rid, key, "%s rewrites `%s.%s` of a position that was derived from a source span: the edit no longer refers to the original document "
+                        "(two occurrences of the renamed symbol on one line + a new name of another length corrupt the line)" % (
+                            owner.path.rsplit("::", 2)[-2] if "::" in owner.path else owner.path, adt, fld), "%s:%s" % (f.file, line))
+    ctx.floor(rid, 150, "language-server bodies scanned")
+
+
+def r156(ctx, fx):
+    rid = ctx.rule("R15.6", "recorded locations that are not the symbol's name are not rewritten (regression guards for repaired defects): the rename handler compares the "
+                   "source text at the definition with the symbol's name in its defining scope and answers nothing when they differ (generated symbols: loop "
+                   "`index`, block `-`/`+`); it leaves `super` usages alone; it narrows an import's `name as alias` usage to the name; add_symbol records further "
+                   "definitions of a variable as usages and clears what the analysis knew about a re-used symbol index")
+    rh = [f for f in fx.all_fns("mos") if f.d.get("impl_self") == "mos::lsp::rename::RenameHandler" and f.path.endswith("::handle") and
+          f.d.get("impl_trait") == "mos::lsp::traits::RequestHandler"]
+    ads = fx.fn("mos_core::codegen::CodegenContext::add_symbol")
+    if len(rh) != 1 or ads is None:
+        ctx.fail_closed(rid, "RenameHandler::handle / add_symbol not found")
+        return
+    rh = rh[0]
+    bodies = [rh]     # the HIR of a function contains the bodies of its closures
+
+    def calls_any(sfx):
+        return any(True for b in bodies if b.d.get("hir") for x, p in lib.hir_calls(b.hir["body"]) if p and lib.pm(p, sfx))
+    checks = [
+        ("generated-symbols", calls_any("SymbolTable::children") and any(
+            n.get("k") == "binary" and n.get("op") in ("Eq", "Ne") and "as_str" in repr(lib.hdesc(n)) for b in bodies if b.d.get("hir") for n in lib.hwalk(b.hir["body"])),
+         "the rename handler does not compare the text at the definition with the symbol's name: renaming the `index` of a loop or the `-`/`+` of a block rewrites the "
+         "loop count / the brace"),
+        ("super", calls_any("Identifier::is_super"),
+         "the rename handler rewrites `super` usages: renaming a scope turns `lda super.foo` into `lda .foo`"),
+        ("import-alias", calls_any("Span::subspan"),
+         "the rename handler replaces the whole `name as alias` of an import: renaming the imported symbol deletes the alias"),
+    ]
+    for k, ok, msg in checks:
+        key = "RenameHandler|%s" % k
+        ctx.inst(rid, key)
+        if not ok:
+            ctx.finding(rid, key, msg, rh.where)
+    key = "add_symbol|further-definitions"
+    ctx.inst(rid, key)
+    if not any(True for x, p in lib.hir_calls(ads.hir["body"], "Definition::add_usage")):
+        ctx.finding(rid, key, "add_symbol replaces the recorded location on every definition: the earlier definitions of a `.var` defined twice are neither definition nor "
+                    "usage, a rename skips them and the program assembles to other bytes", ads.where)
+    key = "add_symbol|reused-index"
+    ctx.inst(rid, key)
+    if not any(True for x, p in lib.hir_calls(ads.hir["body"], "Analysis::remove_definition")):
+        ctx.finding(rid, key, "a newly inserted symbol inherits what the analysis recorded for the removed symbol whose index it was given (the `index` of a loop): "
+                    "renaming a constant defined after a loop rewrites `index`", ads.where)
+
+
 def run(ctx):
     fx = ctx.facts
     cg = lib.CallGraph(fx)
+    r155(ctx, fx)
+    r156(ctx, fx)
     r161(ctx, fx, "R15.1")
     r162(ctx, fx, cg, "R15.2")
     r163(ctx, fx, "R15.3")
